@@ -5,4 +5,5 @@ def run(ctx, V):
     pmcheck.standard_run(ctx, V, ["alive", "c03", "protocol", "wedge"], extract=["Extract/ExClient.vo", "Extract/ExEnqueue.vo"], n_quick=500)
     C06.correspond(ctx, V, n=300 if ctx.tier == "quick" else 6000)
 def replay(ctx, V, path):
-    print(json.dumps(json.load(open(path)), indent=1)[:6000]); return 0
+    import C06
+    return C06.replay(ctx, V, path)
